@@ -275,7 +275,46 @@ let run_bfcycle = function
        (match !result with Some r -> r | None -> "ERR none"))
   | _ -> "ERR bad bfcycle line"
 
-let handlers : (string * (string list -> string)) list ref = ref [ ("cell", run_cell); ("bf", run_bf); ("inplace", run_inplace); ("ir", run_ir); ("bc", run_bc); ("parse", run_parse); ("bfbig", run_bfbig); ("bfcycle", run_bfcycle); ("irbig", run_irbig) ]
+
+(* tape|w|ops|allocs  (ops as in the harness; allocs = string of 0/1 answers) ->
+   model observations with the spec's verdict: r=<v> , c=<model>/<must> , - ; then status *)
+let parse_tops (w : z) (s : string) : top list =
+  let m = Model.Z.pow (z_of_int 2) w in
+  List.filter_map (fun x ->
+      if x = "" then None else
+        match split_on ':' x with
+        | ["m"; d] -> Some (TMov (zs d))
+        | ["r"; o] -> Some (TRead (zs o))
+        | ["w"; o; v] -> Some (TWrite (zs o, Model.Z.modulo (zs v) m))
+        | ["a"; a; b] -> Some (TAcc (zs a, zs b))
+        | ["c"; o] -> Some (TCheck (zs o))
+        | _ -> failwith ("bad tape op " ^ x)) (split_on ';' s)
+
+let run_tape = function
+  | w :: ops :: rest ->
+    let w = zs w in
+    let ops = parse_tops w ops in
+    let allocs = match rest with
+      | [a] -> List.init (String.length a) (fun i -> a.[i] = '1')
+      | _ -> [] in
+    let small = ops_small ops Z0 in
+    let (sobs, _) = s_run ops spec0 in
+    (match t_run rust_policy ops allocs rtape0 with
+     | TOk (obs, tf) ->
+       let strs = List.map2 (fun o so ->
+           match o, so with
+           | ORead v, SRead _ -> "r=" ^ sz v
+           | OCheck b, SCheck must -> "c=" ^ (if b then "1" else "0") ^ "/" ^ (if must then "1" else "0")
+           | ONone, SNone -> "-"
+           | _ -> "?") obs sobs in
+       let ok = all_match obs sobs in
+       String.concat " " strs ^ " | ok size=" ^ sz tf.t_size ^ (if ok then " match" else " MISMATCH") ^ (if small then "" else " notsmall")
+     | RawOob i -> "rawoob " ^ sz i
+     | TooLarge -> "toolarge"
+     | AllocFail -> "allocfail")
+  | _ -> "ERR bad tape line"
+
+let handlers : (string * (string list -> string)) list ref = ref [ ("cell", run_cell); ("bf", run_bf); ("inplace", run_inplace); ("ir", run_ir); ("bc", run_bc); ("parse", run_parse); ("bfbig", run_bfbig); ("tape", run_tape); ("bfcycle", run_bfcycle); ("irbig", run_irbig) ]
 
 let () =
   (try
